@@ -11,12 +11,15 @@ import (
 	"path/filepath"
 	"strings"
 	"sync"
+	"sync/atomic"
 	"time"
 )
 
 // ---------------------------------------------------------------------------------------------
 // Discharging obligations: z3 4.8.12 first, then z3-new and cvc5 in parallel
 // ---------------------------------------------------------------------------------------------
+
+var solverErrors atomic.Int64
 
 type SolveResult struct {
 	Status  string // "unsat" | "sat" | "unknown"
@@ -65,6 +68,13 @@ func runSolver(ctx context.Context, name string, args []string, file string, tim
 
 func firstLine(s string) string {
 	s = strings.TrimSpace(s)
+	if strings.Contains(s, "(error") || strings.Contains(s, "Parse Error") {
+		solverErrors.Add(1)
+		if solverErrors.Load() < 5 {
+			fmt.Fprintln(os.Stderr, "SOLVER ERROR:", strings.SplitN(s, "\n", 2)[0])
+		}
+		return "error"
+	}
 	if i := strings.Index(s, "\n"); i >= 0 {
 		return strings.TrimSpace(s[:i])
 	}
